@@ -1966,6 +1966,61 @@ func main() {
 	if len(accs) == 0 {
 		changed("no container access found in the handlers (order analysis lost its footing)")
 	}
+	// type facts (round 7): the arms of genTypes' type switch and every type of package data that
+	// implements data.Types (methods Is + String)
+	{
+		var arms []string
+		found := false
+		if fd := an.funcs["genTypes"]; fd != nil && fd.Body != nil {
+			ast.Inspect(fd.Body, func(nd ast.Node) bool {
+				ts, ok := nd.(*ast.TypeSwitchStmt)
+				if !ok || found {
+					return true
+				}
+				found = true
+				for _, st := range ts.Body.List {
+					cc, ok := st.(*ast.CaseClause)
+					if !ok {
+						continue
+					}
+					if cc.List == nil {
+						arms = append(arms, "default")
+					}
+					for _, e := range cc.List {
+						switch t := e.(type) {
+						case *ast.SelectorExpr:
+							arms = append(arms, baseIdent(t.X)+"."+t.Sel.Name)
+						case *ast.StarExpr:
+							if se, ok := t.X.(*ast.SelectorExpr); ok {
+								arms = append(arms, baseIdent(se.X)+"."+se.Sel.Name)
+							}
+						default:
+							arms = append(arms, "?")
+						}
+					}
+				}
+				return false
+			})
+		}
+		if !found {
+			changed("genTypes: no type switch over data.Types found")
+		}
+		var impls []string
+		for q, m := range u.methods {
+			if strings.HasPrefix(q, "data.") && m["Is"] != nil && m["String"] != nil {
+				is := m["Is"]
+				if is.Type.Params != nil && len(is.Type.Params.List) == 1 && is.Type.Results != nil && len(is.Type.Results.List) == 1 {
+					impls = append(impls, q)
+				}
+			}
+		}
+		sort.Strings(impls)
+		if len(impls) == 0 {
+			changed("no implementation of data.Types found")
+		}
+		fmt.Fprintf(&sb, "/-- the arms of the type switch of `genTypes` (cmd/compile/gen_data.go), in source order -/\ndef genTypesArms : List String := %s\n\n", leanList(arms))
+		fmt.Fprintf(&sb, "/-- the types of package data with methods `Is(Value) bool` and `String() string` (= the implementations of data.Types) -/\ndef typesImpls : List String := %s\n\n", leanList(impls))
+	}
 	sb.WriteString("def tables : Tables := { structs := structs, special := special, scalars := scalars, aux := aux, nodeNeedsTag := nodeNeedsTag, ptrAssertUnchecked := ptrAssertUnchecked }\n\n")
 	sb.WriteString("/-- places where the source no longer has the syntactic shape the translator understands -/\ndef shapeChanged : List String := " + leanList(shape) + "\n\nend Generated.C16CompileNodes\n")
 	if err := ex.WriteIfChanged(a.Out, "C16CompileNodes.lean", sb.String()); err != nil {
